@@ -25,6 +25,7 @@ EXPLANATION = (
     ' (R5) no module- or class-level binding holds an exhaustible iterator (generator expression, chain, map, filter, zip, iter ...) that a function reads.'
     ' (R3) attributes of class objects assigned from functions are process-wide state (exempt: a transaction counter written only in ModbusTcpProtocolCommand.request_bytes and read nowhere else).'
     ' (R6) the in-place decoders (read_value / read of shared definitions) never read an attribute of self that methods assign before this call has assigned it: a decode cannot depend on what an earlier decode left behind.'
+    ' (R7, shared with C03.R4) the Modbus/TCP transaction counter - the one piece of state all inverter objects share - is advanced and encoded by a total function of the counter value (2 big-endian unsigned bytes over its whole range), so what another object sent can change the two id bytes and nothing else.'
 )
 
 MUTATORS = {"append", "extend", "insert", "pop", "remove", "clear", "update", "setdefault", "popitem", "sort", "reverse", "add", "discard"}
@@ -194,6 +195,14 @@ def check(ctx: Ctx, rep: Report):
                             rep.violation("C20.R1", "external-store:%s:%s" % (fn.short, norm(t)), fn.loc(n),
                                           "%s assigns %s on a definition object shared by all inverter instances" % (fn.short, norm(t)))
     stale_decode_state(ctx, rep, shared)
+    rep.rule("C20.R7", "the one process-wide counter reaches nothing but the two transaction-id bytes: its update and its encoding are total over the whole counter range (shared with C03.R4 next-tx)", 1)
+    from .c03 import r4 as _c03_r4
+    from ..core import Report as _R7
+    _s7 = _R7("C03", rep.tier)
+    _c03_r4(ctx, _s7)
+    for o in _s7.obligations:
+        if o.rule == "C03.R4" and o.key == "next-tx":
+            rep.obligations.append(type(o)("C20.R7", o.key, o.where, o.what, o.status, o.detail))
     # ---- R2
     inv = prog.cls("Inverter")
     for ci in prog.all_subclasses(inv, include_self=False):
